@@ -297,6 +297,30 @@ class Machine:
 				v = self.expr(elt, env2, z3.And(g, c))
 				res = self.append(res, v, z3.And(inside, c), guard)
 			return res
+		if k == 'rangecomp':
+			# python only: [elt for var in range(...) if cond]; at most CAP iterations inside the claim (premise)
+			_, elt, var, rargs, cond = e
+			vals = [to_int(self.expr(a, env, guard)) for a in rargs]
+			start, stop, step = (bv(0), vals[0], bv(1)) if len(vals) == 1 else (vals[0], vals[1], bv(1)) if len(vals) == 2 else (vals[0], vals[1], vals[2])
+			self.premise(step != bv(0), guard)
+			res = ('list', (bv(0), [bv(0)] * CAP))
+			i = start
+			running = z3.BoolVal(True)
+			for _j in range(CAP):
+				inside = z3.And(running, z3.If(step > bv(0), i < stop, i > stop))
+				env2 = dict(env)
+				env2[var] = ('int', i)
+				g = z3.And(guard, inside)
+				c = to_bool(self.expr(cond, env2, g)) if cond is not None else z3.BoolVal(True)
+				v = self.expr(elt, env2, z3.And(g, c))
+				res = self.append(res, v, z3.And(inside, c), guard)
+				running = inside
+				i = i + step
+			self.premise(z3.Not(z3.And(running, z3.If(step > bv(0), i < stop, i > stop))), guard)
+			return res
+		if k == 'comma':
+			self.expr(e[1], env, guard)
+			return self.expr(e[2], env, guard)
 		if k == 'iife':
 			# C++ `[&]() -> T { ... }()`: runs in place; the generated bodies only write their own locals
 			outs = self.block(e[1], dict(env), {}, guard)
